@@ -1439,6 +1439,12 @@ func (z *zzC0102Srv) settled(
 			o2 := z.query(req, ans, rng, via)
 			z.forcePlain = false
 			if zzC0102Admissible(o2.Out, want(o2.Rep)) {
+				// ... and once more in the original form (a reconfiguration
+				// may have taken effect in between):
+				o = z.query(req, ans, rng, via)
+				if zzC0102Admissible(o.Out, want(o.Rep)) {
+					return o, true
+				}
 				o.AddrForm = z.af.form
 
 				return o, false
